@@ -455,6 +455,25 @@ func c07Merge(w *World, r *Report) {
 		}
 	}
 	r.Check(okFirst, "R4", "MergeHeaders/first-never-overrides-second", mh.Pos(), "a key of firstHeaders is stored only if absent from secondHeaders or before the second pass overwrites it (second wins)")
+	// union: every key of firstHeaders that secondHeaders lacks reaches the result, and both passes run to exhaustion
+	okUnion := len(firstUps) >= 1
+	for _, fu := range firstUps {
+		for _, c := range CondsOf(fu.Block()) {
+			p := Path(c.V)
+			if strings.HasPrefix(p, "next(range(param:") && strings.HasSuffix(p, "#0") && c.Pol {
+				continue
+			}
+			if strings.HasPrefix(p, "param:secondHeaders[") && strings.HasSuffix(p, "#1") && !c.Pol {
+				continue
+			}
+			okUnion = false
+		}
+	}
+	var brk []string
+	for _, h := range loopHeadersOf(mh) {
+		brk = append(brk, loopBreaks(h)...)
+	}
+	r.Check(okUnion && len(brk) == 0, "R4", "MergeHeaders/union-is-complete", mh.Pos(), "a key of firstHeaders is skipped only when secondHeaders has it (=%v) and neither pass is left by break %v", okUnion, brk)
 }
 
 // natural loop body of header h: blocks dominated by h that can reach h.
